@@ -14,7 +14,7 @@ META = {
             "C32_perm_invariant (when the deciding stage of the tie-break cascade has exactly one qualifying candidate - the "
             "decidable predicate det - every permutation of the table resolves the request to the same route, for all tables, "
             "methods and paths), C32_fewest_vars (unless a candidate is spelled exactly like the path, the chosen route has no "
-            "more variables than any other candidate, for every order), C32_refuted (the unrestricted claim is false: '/' and "
+            "more variables than any other candidate, for every order), C32_empty_path_is_root / C32_old_refuted (the empty request path resolves like '/' since fix 0d5a8a0d; before, it made every route a candidate), C32_refuted (the unrestricted claim is false: '/' and "
             "'/x' for path '/x'; replayed on the real code and recorded as known findings per deciding stage). The model is "
             "compared with the real FindRoute (all permutations of the model vs. re-built and re-iterated real maps; histories "
             "that interleave Router.New and FindRoute on one router instance, each lookup also compared with a fresh router "
@@ -185,10 +185,10 @@ Definition nodup_N (l : list N) : list N :=
   fold_right (fun x acc => if existsb (N.eqb x) acc then acc else x :: acc) [] l.
 Definition one (T : list route) (q : str * str) : list N :=
   let cs := nodup_N (map (fun T' => code T (find_route T' (fst q) (snd q))) (perms T)) in
-  let m := upper (fst q) in let ps := split (norm (snd q)) in
+  let m := upper (fst q) in let ps := split (norm_path (snd q)) in
   [N.of_nat (length cs)] ++ cs ++ [if det (cands T m ps) ps then 1 else 0; stage (cands T m ps) ps].
 Definition one_fixed (T : list route) (q : str * str) : list N :=
-  let m := upper (fst q) in let ps := split (norm (snd q)) in
+  let m := upper (fst q) in let ps := split (norm_path (snd q)) in
   [code T (find_route T (fst q) (snd q)); code T (find_route (rev T) (fst q) (snd q));
    if det (cands T m ps) ps then 1 else 0; stage (cands T m ps) ps; N.of_nat (length (cands T m ps))].
 """
@@ -239,6 +239,8 @@ def rcode(routes, res):
 
 
 def norm_path(p):
+    if p == "":
+        p = "/"
     if len(p) > 1:
         p = (p[:-1] if p.endswith("/") else p) + "/"
     return p
@@ -283,7 +285,8 @@ def run(ck):
               "(no lib/services directory, no redirects.json, OAuth AS/RS disabled)")
     ck.trusted("harness/C32/find_test.go, router_dump.go, table_test.go (overlays), props/C32.py generators and comparison",
                "correspondence evaluated by vm_compute in generated files")
-    thms = ["C32_refuted", "C32_perm_invariant_at", "C32_perm_invariant", "C32_fewest_vars", "C32_history_table", "C32_stateless"]
+    thms = ["C32_refuted", "C32_perm_invariant_at", "C32_perm_invariant", "C32_fewest_vars", "C32_history_table", "C32_stateless",
+            "C32_empty_path_is_root", "C32_old_refuted"]
     coq_ok = ck.coq_stage(GROUP, theorems=thms)
 
     H = os.path.join(vf.HARNESS, "C32")
@@ -481,14 +484,14 @@ def run(ck):
                             # a class the table does not decide is a finding (reported below), not a discharged obligation
                             ck.cov["discharged"] -= 1
                             ck.cov["obligations"] -= 1
-                            sig = "real-table:empty-path" if q[1] == "" else "real-table:%s %s" % (q[0], norm_path(q[1]))
+                            sig = "real-table:%s %s" % (q[0], norm_path(q[1]))
                             ck.violation(sig, "the real route table does not decide %s %r independently of the map order "
                                          "(stage %s, %d candidates; model: %d vs %d for reversed order; real results %r)" % (
                                              q[0], q[1], STAGE.get(stage), ncand, c1, c2, rres[i][:4]), replay=rep)
                         elif R != {c1}:
                             ck.violation("corr-real-table", "model/implementation disagree on the real table for %s %r: real %r, model code %d" % (
                                 q[0], q[1], rres[i], c1), replay=rep, found_input=len(R) > 1)
-                    elif len(R) > 1 and q[1] != "":
+                    elif len(R) > 1:
                         ck.violation("real-table:%s %s" % (q[0], norm_path(q[1])), "the real FindRoute returns different routes for %s %r: %r" % (
                             q[0], q[1], rres[i]), replay=rep)
                 ck.cov["real_table"] = {"routes": ntab, "request_classes_checked": nreq, "ambiguous": amb}
